@@ -117,7 +117,8 @@ impl FeatureState for CombinedFeatureState {
     }
 
     fn accept_route_state(&self, route_ctx: &mut RouteContext) {
-        accept_route_state_with_states(&self.states, route_ctx)
+        // NOTE: do not clear route state here as it wipes out states of other features set within the same call
+        self.states.iter().for_each(|state| state.accept_route_state(route_ctx));
     }
 
     fn accept_solution_state(&self, ctx: &mut SolutionContext) {
